@@ -26,6 +26,27 @@ def _texts(items):
     return [("fixed", seq, feats, "DFLT", "dflt") for seq, feats in items]
 
 
+def rejected(name):
+    """[(label, feature file)] that must not compile."""
+    out = []
+    if name == "reject:device-out-of-range":
+        for d in (128, 129, -129, -130, 200, -32768):
+            out.append(("device delta out of range in a value record: %d" % d,
+                        "feature tst1 {\n    pos a <0 0 10 0 <device NULL> <device NULL> <device 11 %d, 12 1> <device NULL>>;\n} tst1;\n" % d))
+            out.append(("device delta out of range in an anchor: %d" % d,
+                        "markClass acute <anchor 100 500> @TOP;\nfeature tst1 {\n    pos base a <anchor 250 450 <device 11 %d> <device NULL>> mark @TOP;\n} tst1;\n" % d))
+            out.append(("device delta out of range in a cursive anchor: %d" % d,
+                        "feature tst1 {\n    pos cursive a <anchor 10 20 <device NULL> <device 12 1, 14 %d>> <anchor NULL>;\n} tst1;\n" % d))
+    return out
+
+
+def _devrec(dev):
+    sizes = sorted(dev)
+    full = tuple(dev.get(p_, 0) for p_ in range(sizes[0], sizes[-1] + 1))
+    fmt = 1 if (min(full) >= -2 and max(full) <= 1) else 2 if (min(full) >= -8 and max(full) <= 7) else 3
+    return (sizes[0], sizes[-1], fmt, full)
+
+
 def program(name):
     on = lambda *t: {x: 1 for x in t}
     if name == "order":
@@ -286,6 +307,41 @@ feature tst1 {
         prog = {"fea": fea.lstrip("\n"), "model": m, "kinds": ["fixed:" + name], "axis": m["axis"]}
         seqs = (["a", "b"], ["c"], ["d"], ["e", "acute"], ["f", "g"], ["h"], ["a", "b", "c", "d", "e", "acute", "f", "g", "h"])
         return prog, [("fixed", s_, {"tst1": 1}, "DFLT", "dflt", loc) for s_ in seqs for loc in (None, 100, 250, 400, 650, 900)]
+    elif name == "device-boundaries":
+        # <device> tables whose extreme deltas sit at and around every DeltaFormat boundary, at
+        # the first and at the last ppem of the range, in values and in anchors
+        edges = [(-1, 1), (-2, 1), (-2, 2), (-3, 0), (-8, 7), (-8, 8), (-9, 7), (-9, 0), (0, -9), (7, -8), (-128, 127), (127, -128), (1, -2), (0, 8), (-10, 3)]
+        glyphs_ = list("abcdefghijklmn") + ["a.sc"]
+        lines, vals, devs, t = ["feature tst1 {"], {}, [], []
+        for g_, (lo_, hi_) in zip(glyphs_, edges):
+            dx = {10: lo_, 11: 0, 13: hi_}
+            dy = {12: hi_, 17: lo_}
+            lines.append("    pos %s <5 0 20 0 <device %s> <device NULL> <device %s> <device NULL>>;" % (
+                g_, ", ".join("%d %d" % kv for kv in sorted(dy.items())), ", ".join("%d %d" % kv for kv in sorted(dx.items()))))
+            vals[g_] = (5, 0, 20, 0, {"xp": {"dev": dy}, "xa": {"dev": dx}})
+            devs += [_devrec(dx), _devrec(dy)]
+        lines.append("} tst1;")
+        lines.append("markClass acute <anchor 100 500 <device 11 -9, 12 7> <device 11 8>> @TOP;")
+        lines.append("feature tst2 {")
+        lines.append("    pos base a <anchor 250 450 <device 9 -2, 10 1> <device 9 -9, 16 -8>> mark @TOP;")
+        lines.append("    pos base b <anchor 240 460 <device NULL> <device 12 127, 13 -128>> mark @TOP;")
+        lines.append("} tst2;")
+        lines.append("feature tst3 {")
+        lines.append("    pos cursive c <anchor 10 20 <device 11 -9> <device NULL>> <anchor 300 40 <device 11 7, 12 -9> <device 11 2>>;")
+        lines.append("    pos cursive d <anchor 15 25> <anchor 310 45 <device NULL> <device 14 -3>>;")
+        lines.append("} tst3;")
+        A = lambda x, y, dx=None, dy=None: (x, y, dict(([("x", {"dev": dx})] if dx else []) + ([("y", {"dev": dy})] if dy else [])))
+        mb = {"kind": "mbase", "flag": {}, "marks": {"acute": ("TOP", A(100, 500, {11: -9, 12: 7}, {11: 8}))},
+              "bases": {"a": {"TOP": A(250, 450, {9: -2, 10: 1}, {9: -9, 16: -8})}, "b": {"TOP": A(240, 460, None, {12: 127, 13: -128})}}}
+        cu = {"kind": "curs", "flag": {}, "anchors": {"c": (A(10, 20, {11: -9}), A(300, 40, {11: 7, 12: -9}, {11: 2})), "d": ((15, 25), A(310, 45, None, {14: -3}))}}
+        devs += [_devrec(d_) for d_ in ({11: -9, 12: 7}, {11: 8}, {9: -2, 10: 1}, {9: -9, 16: -8}, {12: 127, 13: -128}, {11: -9}, {11: 7, 12: -9}, {11: 2}, {14: -3})]
+        m = _model([], [{"kind": "spos", "flag": {}, "values": vals}, mb, cu], {"tst1": {"GPOS": [0]}, "tst2": {"GPOS": [1]}, "tst3": {"GPOS": [2]}}, {"acute": 3})
+        prog = {"fea": "\n".join(lines) + "\n", "model": m, "kinds": ["fixed:" + name], "devices_all": sorted(set(devs)), "devices_sure": sorted(set(devs))}
+        tt = []
+        for p_ in [None] + list(range(8, 19)):
+            for s_ in ([g_ for g_ in glyphs_[:8]], [g_ for g_ in glyphs_[8:]], ["a", "acute", "b", "acute"], ["c", "c", "d", "c"], ["d", "c"]):
+                tt.append(("fixed", s_, {"tst1": 1, "tst2": 1, "tst3": 1}, "DFLT", "dflt", None, p_))
+        return prog, tt
     elif name == "pair-subtables":
         fea = """
 feature tst1 {
